@@ -13,7 +13,7 @@ from vf.core import Result, lib
 ID = "C20"
 TITLE = "Plots carry the simulated data and the square-root axis is a true bijection"
 LEVEL = "exploration"
-BUDGET = {"quick": 960, "thorough": 20000}
+BUDGET = {"quick": 960, "thorough": 200000}
 SHRINK = {"quick": False, "thorough": True}
 RULE = (
     "Headless (Agg) figures; no pixels are compared, only the artists' data. 'reservoir' cases: a simulated "
@@ -46,7 +46,10 @@ def strategy_(draw):
         return c
     if kind == "transform":
         n = draw(st.integers(1, 30))
-        return {"kind": kind, "values": [draw(st.one_of(st.just(0.0), st.floats(-300.0, 300.0).map(lambda e: 10.0**e), st.floats(0.0, 1e6))) for _ in range(n)]}
+        container = draw(st.sampled_from(["float64", "float64", "int64", "int32", "list-of-int", "float32"]))
+        if container in ("int64", "int32", "list-of-int"):
+            return {"kind": kind, "container": container, "values": [draw(st.integers(0, 40000)) for _ in range(n)]}
+        return {"kind": kind, "container": container, "values": [draw(st.one_of(st.just(0.0), st.floats(-300.0, 300.0).map(lambda e: 10.0**e), st.floats(0.0, 1e6))) for _ in range(n)]}
     n = draw(st.integers(25, 90))
     return {
         "kind": kind,
@@ -90,34 +93,44 @@ def check_case(case) -> Result:
     res.labels["kind"] = kind
     try:
         if kind == "transform":
+            container = case.get("container", "float64")
             a = np.array(case["values"], float)
+            if container == "float32":
+                a = a[(a < 1e30) & ((a > 1e-30) | (a == 0))]
+                if a.size == 0:
+                    a = np.array([2.0])
+            given = {"int64": lambda: np.array(case["values"], np.int64), "int32": lambda: np.array(case["values"], np.int32), "list-of-int": lambda: [int(v) for v in case["values"]], "float32": lambda: a.astype(np.float32)}.get(container, lambda: a)()
+            if container == "float32":
+                a = np.asarray(given, float)
+            res.labels["container"] = container
             scale = P.SquareRootScale(None)
             T = scale.get_transform()
             Ti = T.inverted()
-            fa = np.asarray(T.transform_non_affine(a), float)
+            fa = np.asarray(T.transform_non_affine(given), float)
             want = np.sqrt(a)
-            ulp = np.spacing(want)
+            ulp = np.spacing(want) * (1.0 if container != "float32" else 2.0**29)
             if fa.shape != a.shape or np.any(np.abs(fa - want) > ulp):
                 k = int(np.argmax(np.abs(fa - want) / np.maximum(ulp, 1e-320))) if fa.shape == a.shape else 0
                 res.bad("C20/transform-is-square-root", f"transform({a[k]!r}) = {fa[k] if fa.shape == a.shape else fa!r}, sqrt = {want[k]!r}")
                 return res
-            back = np.asarray(Ti.transform(fa), float)
+            back = np.asarray(Ti.transform(np.asarray(T.transform_non_affine(given))), float)
             ok = a > 0
             rel = np.abs(back[ok] - a[ok]) / a[ok]
+            tol_rt = 4 * np.finfo(float).eps if container != "float32" else 4 * float(np.finfo(np.float32).eps)
             if np.any(a == 0) and np.any(back[a == 0] != 0):
                 res.bad("C20/transform-inverse-pair", "inverse(transform(0)) != 0")
             if rel.size:
-                res.check("C20/transform-inverse-pair", float(np.max(rel)), 4 * np.finfo(float).eps, f"inverse(transform(a)) vs a at a={a[ok][int(np.argmax(rel))]!r};")
+                res.check("C20/transform-inverse-pair", float(np.max(rel)), tol_rt, f"inverse(transform(a)) vs a at a={a[ok][int(np.argmax(rel))]!r} ({container});")
             # the other order, on values whose square is representable
             b = a[(a < 1e150) & ((a > 1e-150) | (a == 0))]
-            if b.size:
+            if b.size and container in ("float64",):
                 fwd = np.asarray(T.transform_non_affine(np.asarray(Ti.transform(b), float)), float)
                 okb = b > 0
                 if np.any(okb):
                     relb = np.abs(fwd[okb] - b[okb]) / b[okb]
                     res.check("C20/transform-inverse-pair", float(np.max(relb)), 4 * np.finfo(float).eps, f"transform(inverse(a)) vs a at a={b[okb][int(np.argmax(relb))]!r};")
             again = Ti.inverted()
-            fa2 = np.asarray(again.transform_non_affine(a), float)
+            fa2 = np.asarray(again.transform_non_affine(given), float)
             if not _same(fa2, fa):
                 res.bad("C20/transform-inverse-pair", "inverted().inverted() is not the forward transform")
             mags = {int(math.floor(math.log10(v))) for v in a if v > 0}
